@@ -12,7 +12,7 @@ import hrun
 def build_exe(tag, variant="asan"):
     out = build.fresh_dir(tag)
     srcs = ["src/" + s for s in build.CORE_SRCS if s != "main.c"]
-    return build.build_harness(out, variant, "h_conf", "h_conf.c", srcs)
+    return build.build_harness(out, variant, "h_conf", "h_conf.c", srcs, link_extra=("-Wl,--wrap=fread", "-Wl,--wrap=read"))
 
 
 class CaseRec(object):
@@ -86,7 +86,7 @@ def parse_output(out):
             cur.same.append((False, before, after))
             i = j if (j < n and lines[j] == "AFTER-END") else j - 1
         else:
-            if ln.startswith("PARSE ") or ln.startswith("FATAL-CHILD") or ln.startswith("UNKNOWN-COMMAND") or ln.startswith("FDS "):
+            if ln.startswith("PARSE ") or ln.startswith("FATAL-CHILD") or ln.startswith("UNKNOWN-COMMAND") or ln.startswith("FDS ") or ln.startswith("FAULT "):
                 cur.other.append(ln)
             cur.text.append(ln)
         i += 1
